@@ -33,7 +33,7 @@ for pid in sorted(CHECKS):
         "level_note": note,
         "technique": tech,
     })
-hooks_commits = subprocess.run(["git", "-C", "/repo", "log", "--format=%H", "--grep=^verif hooks"], capture_output=True, text=True).stdout.split()
+hooks_commits = subprocess.run(["git", "-C", "/repo", "log", "--format=%H", "-E", "--grep=^(verif hooks|hook:)"], capture_output=True, text=True).stdout.split()
 m = {
     "version": 1,
     "setup_cmd": "scripts/check.sh --build-only",
